@@ -1,4 +1,78 @@
----- MODULE RuleQpq ----
+------------------------------ MODULE RuleQpq -------------------------------
+(***************************************************************************)
+(* qpq: droop/rules/qpq.py.  Clause ids: Woodall, "QPQ, a quota-           *)
+(* preferential STV-like election rule", Voting matters 17, 2.1-2.6.       *)
+(* cstate.vote is vc (ballots contributing), cstate.quotient is qc.        *)
+(***************************************************************************)
 EXTENDS Election
-Step_qpq(s) == s
-====
+
+Q_Complete(s) == SeatsLeft(s) <= 0 \/ Cardinality(HopefulS(s)) <= SeatsLeft(s)
+Q_Quota(s) == VDiv(s.h, s.va, VInt(s.h, 1 + s.h.seats) - s.tx)                          \* 2.4
+(* transfer(): advance to the next hopeful candidate, nothing is credited *)
+Q_Advance(s, J, w2, cont) ==
+  [s EXCEPT !.bal = [j \in 1 .. NLines(s) |-> IF j \in J THEN [ix |-> NextIx(s, j, s.bal[j].ix, cont), w |-> w2[j]] ELSE s.bal[j]]]
+
+(* 2.3, 2.4: restart after an exclusion, then quotients and quota *)
+Q_Recount(s0) ==
+  LET s1 == IF s0.istat = "restart"
+            THEN LET u == [s0 EXCEPT !.st = [c \in CandS(s0) |-> IF s0.st[c] = "E" THEN "H" ELSE s0.st[c]],
+                                     !.bal = [j \in 1 .. NLines(s0) |-> [ix |-> 0, w |-> 0]], !.istat = ""]
+                 IN Q_Advance(u, 1 .. NLines(u), [j \in 1 .. NLines(u) |-> 0], HopefulS(u))
+            ELSE s0
+      H == HopefulS(s1)
+      val == [j \in 1 .. NLines(s1) |-> s1.bal[j].w * s1.h.lines[j].m]
+      tx == Sum([j \in 1 .. NLines(s1) |-> IF TopOf(s1, j) = 0 THEN val[j] ELSE 0])
+      va == Sum([j \in 1 .. NLines(s1) |-> IF TopOf(s1, j) # 0 THEN s1.h.lines[j].m * s1.h.S ELSE 0])
+      tc == [c \in CandS(s1) |-> IF c \in H THEN Sum([j \in 1 .. NLines(s1) |-> IF TopOf(s1, j) = c THEN val[j] ELSE 0]) ELSE s1.tc[c]]
+      vc == [c \in CandS(s1) |-> IF c \in H THEN Sum([j \in 1 .. NLines(s1) |-> IF TopOf(s1, j) = c THEN s1.h.lines[j].m * s1.h.S ELSE 0]) ELSE s1.vote[c]]
+      qc == [c \in CandS(s1) |-> IF c \in H THEN VDiv(s1.h, vc[c], s1.h.S + tc[c]) ELSE s1.quot[c]]
+      s2 == [s1 EXCEPT !.tx = tx, !.va = va, !.tc = tc, !.vote = vc, !.quot = qc]
+  IN [s2 EXCEPT !.quota = Q_Quota(s2)]
+
+Q_Finish(s) == [s EXCEPT !.pc = "finish", !.flag = FALSE,
+                         !.istat = IF Cardinality(HopefulS(s)) <= SeatsLeft(s) THEN "elect" ELSE "defeat"]
+Q_FinishStep(s) ==
+  IF HopefulS(s) # {}
+  THEN LET c == SetOrder(HopefulS(s))[1] IN
+       IF s.istat = "elect" THEN Elect(s, c, "elect_remaining", FALSE) ELSE Defeat(s, c, "defeat_remaining")
+  ELSE [Log(s, "end", "end", 0) EXCEPT !.pc = "done"]
+
+Q_Decide(s) ==
+  LET H == HopefulS(s)
+      high == PyMaxOver(s, s.quot, H)
+  IN IF VGT(s.h, high, s.quota)                                                          \* 2.5a
+     THEN LET tied == {c \in H : VEQ(s.h, s.quot[c], high)}
+              hc == FirstInTieOrder(s, tied)
+          IN IF Cardinality(tied) > 1 /\ ~s.flag
+             THEN [LogTie(s, "tie_lot", "surplus", tied, hc) EXCEPT !.pc = "decide", !.flag = TRUE]
+             ELSE [Elect(s, hc, "elect_quotient", FALSE) EXCEPT !.pc = "qelected", !.cur = hc, !.flag = FALSE]
+     ELSE LET low == PyMinOver(s, s.quot, H)                                             \* 2.5b
+              tied == {c \in H : VEQ(s.h, s.quot[c], low)}
+              lc == FirstInTieOrder(s, tied)
+          IN IF Cardinality(tied) > 1 /\ ~s.flag
+             THEN [LogTie(s, "tie_lot", "defeat", tied, lc) EXCEPT !.pc = "decide", !.flag = TRUE]
+             ELSE [Defeat(s, lc, "defeat_quotient") EXCEPT !.pc = "qdefeated", !.cur = lc, !.flag = FALSE]
+
+Step_qpq(s) ==
+  CASE s.pc = "start" ->                                                                 \* 2.1, 2.2
+         LET s1 == [s EXCEPT !.va = s.h.n * s.h.S, !.tx = 0,
+                             !.bal = [j \in 1 .. NLines(s) |-> [ix |-> 0, w |-> 0]]]
+             s2 == [s1 EXCEPT !.quota = Q_Quota(s1)]
+         IN [Log(s2, "begin", "begin", 0) EXCEPT !.pc = "loop", !.istat = "restart"]
+    [] s.pc = "loop" ->                                                                  \* 2.6
+         IF Q_Complete(s) THEN Q_FinishStep(Q_Finish(s)) ELSE [NewRound(s) EXCEPT !.pc = "stage"]
+    [] s.pc = "stage" -> Q_Decide(Q_Recount(s))
+    [] s.pc = "decide" -> Q_Decide(s)
+    [] s.pc = "qelected" ->                                                              \* 2.5a: each contributing ballot has now elected 1/qc candidates
+         LET c == s.cur
+             nw == VDiv(s.h, s.h.S, s.quot[c])
+             J == {j \in 1 .. NLines(s) : TopOf(s, j) = c}
+             s1 == Q_Advance(s, J, [j \in 1 .. NLines(s) |-> nw], HopefulS(s))
+         IN [LogTransfer(s1, "transfer_elected", <<c>>) EXCEPT !.pc = "loop"]
+    [] s.pc = "qdefeated" ->
+         LET c == s.cur
+             J == {j \in 1 .. NLines(s) : TopOf(s, j) = c}
+             s1 == Q_Advance(s, J, [j \in 1 .. NLines(s) |-> s.bal[j].w], HopefulS(s))
+         IN [LogTransfer(s1, "transfer_defeated", <<c>>) EXCEPT !.pc = "loop", !.istat = "restart"]
+    [] s.pc = "finish" -> Q_FinishStep(s)
+=============================================================================
